@@ -654,7 +654,18 @@ def m3(ctx, al, ntrees, nsys, length):
                 for _ in range(e):
                     data = list(Fo(data, zero=0))
                 return data
-            casc, par = al.CascadeFilter(Fo, Go), al.ParallelFilter([Fo, Go])
+            if made % 2:
+                # a bank is a list: used once with other members, then given its real members by item assignment,
+                # it is the cascade / parallel bank of its CURRENT members
+                dummy = al.ZFilter([1, 1], [1])
+                casc, par = al.CascadeFilter(dummy, dummy), al.ParallelFilter([dummy, dummy])
+                list(casc([1, 2], zero=0))
+                list(par([1, 2], zero=0))
+                casc.numpoly, par.denpoly
+                casc[0], casc[1] = Fo, Go
+                par[0:2] = [Fo, Go]
+            else:
+                casc, par = al.CascadeFilter(Fo, Go), al.ParallelFilter([Fo, Go])
             rec = {"op": "sys", "f": jtree(tf), "g": jtree(tg), "c": [c.numerator, c.denominator], "e": e,
                    "fo": V(Fo(xs(), zero=0)), "go": V(Go(xs(), zero=0)),
                    "addo": V((Fo + Go)(xs(), zero=0)), "subo": V((Fo - Go)(xs(), zero=0)),
